@@ -568,23 +568,35 @@ class Gen:
         sig = []
         for i, p in enumerate(params):
             sig.append(p)
-        extra = ''
         extra_params = []
-        c = r.random()
-        if c < 0.25:
+        pieces = []
+        # positional-only marker after some of the required parameters
+        if params and r.random() < 0.15:
+            k = r.randint(1, len(params))
+            sig.insert(k, '/')
+            self.features.add('posonly')
+        for _ in range(r.choice([0, 0, 0, 1, 1, 2])):
             o = self.fresh("o")
             extra_params.append(o)
-            extra = (', ' if params else '') + f'{o}={self.int_expr(sc)}'
+            pieces.append(f'{o}={self.int_expr(sc)}')
             self.features.add('default')
-        elif c < 0.35:
-            extra = (', ' if params else '') + '*rest'
-        elif c < 0.45:
-            extra_params.append('kw')
-            extra = (', ' if params else '') + f'*, kw={self.int_expr(sc)}'
+        star = False
+        if r.random() < 0.2:
+            pieces.append('*rest')
+            star = True
+        nkw = r.choice([0, 0, 0, 1, 1, 2, 3])
+        if nkw:
+            if not star:
+                pieces.append('*')
+            for _ in range(nkw):
+                o = self.fresh("kw")
+                extra_params.append(o)
+                pieces.append(f'{o}={self.int_expr(sc)}')
             self.features.add('kwonly')
-        elif c < 0.52 and params:
-            extra = ', /'
-            self.features.add('posonly')
+        if r.random() < 0.1:
+            pieces.append('**kws')
+            self.features.add('varkw')
+        extra = ''.join(', ' + x for x in pieces)
         if r.random() < 0.15 and sc.kind != 'class':
             self.features.add('decorator')
             self.emit(ind, '@(lambda fn: fn)' if not self.py38 else '@staticmethod' if False else '@_ident')
